@@ -563,7 +563,8 @@ func (c *SpecCtx) quant(e *EQuant) (Term, error) {
 		name := "q_" + v[0]
 		binders = append(binders, fmt.Sprintf("(%s %s)", name, sort))
 		c2.env[v[0]] = Term{name, sort, gt}
-		if gt != nil {
+		if gt != nil && strings.TrimSpace(v[1]) != "int" {
+			// `int` binders are mathematical integers; sized types keep their range
 			if w := vc.wf(gt, name); w != "" {
 				ranges = append(ranges, w)
 			}
@@ -786,6 +787,19 @@ func (c *SpecCtx) call(e *ECall) (Term, error) {
 			return Term{fmt.Sprintf("(sl_off %s)", x.S), vc.isort(), types.Typ[types.Int]}, nil
 		}
 		return Term{fmt.Sprintf("(sl_ref %s)", x.S), "Int", nil}, nil
+	case "wr", "wrlen", "wrflushed":
+		x, err := c.eval(e.Args[0])
+		if err != nil {
+			return Term{}, err
+		}
+		a, b, f := vc.wrComps()
+		switch e.Fun {
+		case "wr":
+			return Term{fmt.Sprintf("(select %s %s)", vc.get(c.state(), a), x.S), "(Array Int Int)", nil}, nil
+		case "wrlen":
+			return Term{fmt.Sprintf("(select %s %s)", vc.get(c.state(), b), x.S), "Int", nil}, nil
+		}
+		return Term{fmt.Sprintf("(select %s %s)", vc.get(c.state(), f), x.S), "Int", nil}, nil
 	case "rdpos":
 		x, err := c.eval(e.Args[0])
 		if err != nil {
